@@ -7,6 +7,7 @@ import (
 	"context"
 	"fmt"
 	mrand "math/rand"
+	"runtime"
 	"sync"
 	"sync/atomic"
 	"time"
@@ -129,7 +130,8 @@ func linearizabilityCheck(c *Ctx) {
 	var descr []any
 	for round := 0; round < rounds; round++ {
 		now := time.Unix(1_700_000_000, 0)
-		clock := &oidc.Clock{NowFn: func() time.Time { return now }}
+		// a clock that yields: whoever reads it outside a critical section is descheduled right there
+		clock := &oidc.Clock{NowFn: func() time.Time { runtime.Gosched(); time.Sleep(20 * time.Microsecond); return now }}
 		mem := oidc.NewMemoryStore(clock, 0, 0)
 		var stamp int64
 		workers, per := 3+r.Intn(2), 4+r.Intn(2)
@@ -153,6 +155,17 @@ func linearizabilityCheck(c *Ctx) {
 					o = sop{Kind: "Remove", Sid: sid}
 				}
 				plans[w] = append(plans[w], o)
+			}
+		}
+		if round%2 == 0 {
+			// contention on a fresh id: every worker's first operation is a first write to the same session, of alternating kinds
+			for w := range plans {
+				if w%2 == 0 {
+					plans[w][0] = sop{Kind: "SetTok", Sid: "s1", Tok: toks[w%4]}
+				} else {
+					plans[w][0] = sop{Kind: "SetAuth", Sid: "s1", Auth: auths[w%2]}
+				}
+				plans[w][1] = sop{Kind: []string{"GetTok", "GetAuth"}[w%2], Sid: "s1"}
 			}
 		}
 		results := make([][]linOp, workers)
